@@ -58,7 +58,10 @@ def main():
         ],
         'checks': checks,
         'not_applicable': na,
-        'notes': 'Technique family: runtime monitoring and sanitizers. Exit 0 = held on what was observed, 1 = violation (VIOLATION line), 3 = harness error/inconclusive (never a verdict).',
+        'notes': 'Technique family: runtime monitoring and sanitizers. Exit 0 = held on what was observed, 1 = violation (VIOLATION line), 3 = harness error/inconclusive (never a verdict). '
+                 'Known findings and repaired defects are listed in known_findings.json: KF1 (C01, AVX2 neg documented bound; printed as KNOWN-FINDING by the C01 check) and '
+                 'one repaired defect (C14, fix: commit 624f30d in /repo: Straus digit buffer freed un-wiped when the scalar iterator panics). '
+                 'DESIGN.md sections 12-14 record deviations, every alarm of the machinery on the unchanged tree (FA1-FA18) and which check catches which seeded defect (seeded/, mutants/).',
     }
     with open(os.path.join(V, 'MANIFEST.json'), 'w') as f:
         json.dump(man, f, indent=1)
